@@ -246,9 +246,17 @@ def run_case(case):
             labels.add("nonstr-rejected")
         else:
             raise InvalidCase(op)
-        verify(where)
-        verify_twin(where)
-        verify_bystanders(where)
+        # how often the list is built between declaration changes: after every op, after every third op, or only at the end
+        # (a build in between can hide what a remove-and-redeclare without a build shows)
+        vmode = case.get("verify", "every")
+        if vmode == "every" or (vmode == "sparse" and k % 3 == 2) or (vmode == "end-after-first" and k == 1):
+            verify(where)
+            verify_twin(where)
+            verify_bystanders(where)
+    verify("at the end")
+    verify_twin("at the end")
+    verify_bystanders("at the end")
+    labels.add(f"build-{case.get('verify', 'every')}")
     if twin is not None:                       # finally the caller edits its own dict: the list must not notice
         twin_src["\x00late-key"] = [1, 2, 3]
         verify("after the caller added a key to the dict it had passed to the constructor")
@@ -281,7 +289,13 @@ def strategy(tier):
                    st.fixed_dictionaries({"op": st.just("remove"), "i": st.integers(0, 5), "unknown": st.sampled_from([False, False, True])}),
                    st.fixed_dictionaries({"op": st.just("bad_name"), "kind": st.sampled_from(["int", "none", "tuple", "bytes"])}))
     ctor = wone_of(st.none(), st.lists(st.tuples(name, val).map(list), max_size=4))
-    return st.fixed_dictionaries({"ctor": ctor, "ctor_bad_key": st.booleans(), "ops": sized_lists(op, 0, 10)})
+    redeclare = st.builds(lambda nm, v1, v2, mid: {"ctor": None, "ctor_bad_key": False, "verify": "end-after-first",
+                                                   "ops": [{"op": "add", "name": nm, "val": v1}, {"op": "add", "name": nm + "2", "val": {"k": "list", "v": [1, 2]}}]
+                                                   + [{"op": "remove", "i": 0, "unknown": False}] + mid + [{"op": "add", "name": nm, "val": v2}]},
+                          st.sampled_from(["a", "b", "x"]), val, val, st.lists(op, max_size=2))
+    plain = st.fixed_dictionaries({"ctor": ctor, "ctor_bad_key": st.booleans(), "ops": sized_lists(op, 0, 10),
+                                   "verify": st.sampled_from(["every", "every", "sparse", "end"])})
+    return wone_of(*([plain] * 9 + [redeclare]))
 
 
 EXHAUSTIVE_DOMAIN = ("every declaration of 0..3 parameters (names a, b, c in that order) over the value shapes {scalar 7, str 'xy', "
